@@ -236,6 +236,49 @@
 //	                        observable); `bytes.Equal` is `==`; `return nil` of a []byte is `[]`
 //	Config.NoStructDefs     the structures are checked against the file but not emitted: module DiffMainGo uses the GoPair of
 //	                        module DiffGo, and calls its `lines` / `tgs` as configured library functions (Option results)
+//
+// Additions made for the standard library's filepath.Clean / Dir / IsAbs / Join on Unix and /repo's txtar.isAbs (C15;
+// presets "filepath": GOROOT/src/internal/filepathlite/path.go with the declarations of path_unix.go and
+// path_nonwindows.go appended — fact.TranslateModuleFiles merges the files the build constraints select on Unix —,
+// "filepathjoin": `func join` of GOROOT/src/path/filepath/path_unix.go, "txtarabs": `func isAbs` of txtar/archive.go).
+// Every rule applies only to code the translator used to reject or is switched on by the preset, so every earlier
+// translation is byte-identical:
+//
+//	read-only receiver      Config.ReadOnlyRecv: a pointer-receiver method of a Threaded structure that NEVER changes *r
+//	                        (recvReadOnly: no assignment, ++/--, range assignment rooted at r; no method call on r; r only used
+//	                        as `r.f`; and — so that no alias of a field can be written through — no store through an index, no
+//	                        copy, no function literal, go or defer anywhere in the body) is `m (r : T) (args) : Option R`: the
+//	                        receiver is the first parameter and is NOT returned.  A call `x.m(a)` is an ordinary call
+//	                        `let t ← m x a` that rebinds nothing, so it may stand where a rebinding call may not — the right
+//	                        operand of && (`for out.w > dotdot && !IsPathSeparator(out.index(out.w))`).  lazybuf.index and
+//	                        lazybuf.string are read-only, lazybuf.append is threaded
+//	nil-able slice field    a structure field configured with the type KNil (Elem = the slice type; StructDefs accepts it for
+//	                        a Go `[]byte` field and emits `buf : Option Bytes`): `b.buf == nil` / `!= nil` is isNone / isSome,
+//	                        `b.buf = make(…)` is `some …` (the existing nil-ness rules: only nil, make, a composite literal or
+//	                        another tracked value may be assigned), a structure literal that omits the field gives none (nil),
+//	                        every other read (`b.buf[i]`, `b.buf[:b.w]`, `len`) is `GoLib.nilData b.buf`
+//	r.f[i] = x              for a byte-slice field of a structure variable: `let t ← GoLib.setIdx? r.f i x; let r := { r with
+//	                        f := t }` (index checked); for a nil-able field the store reads `GoLib.nilData r.f` — a nil slice
+//	                        has length 0, so the store panics like Go — and the field becomes `some t`
+//	copy(r.f, src)          as a statement, into a byte-slice field: `{ r with f := GoLib.copyInto r.f src }`; for a nil-able
+//	                        field `Option.map (fun d_ => GoLib.copyInto d_ src) r.f` (a nil destination has length 0: nothing
+//	                        is copied and it stays nil)
+//	f(&x) with an empty f   a statement call of a package-level function of the (merged) file that has no results and an EMPTY
+//	                        body — filepathlite's `func postClean(out *lazybuf) {}` outside Windows — whose arguments are
+//	                        variables or their addresses is skipped (nothing to evaluate, nothing happens)
+//	string(c)               of an integer CONSTANT 0 ≤ c < utf8.RuneSelf (`string(filepath.Separator)`, `string(Separator)`):
+//	                        the one-byte string `([c] : Bytes)`; any other string(int) is still rejected
+//	Separator, IsPathSeparator, volumeNameLen, FromSlash   no rule of their own: `Separator = '/'` is an inlined constant,
+//	                        `Separator == '/'` in FromSlash is the literal test `47 == 47` whose else-branch (replaceStringByte,
+//	                        translated too) is dead; `switch { case …: }` inside the loop body, the nested `for` loops (direct
+//	                        style), `out := lazybuf{path: path, …}` and `out.w--` on a local structure are existing rules
+//	strings.Join(xs, string(Separator))   preset "filepathjoin": the model's `GIV.Fsx.joinSep` (library meaning, only with
+//	                        exactly this separator argument; Separator = os.PathSeparator is the configured Unix constant 47);
+//	                        `Clean` there is the translated GIV.Go.Filepath.Clean (filepath.Clean is filepathlite.Clean)
+//	Lean keywords           leanIdent: a Go identifier that is a Lean keyword or reserved token (`matches`, `end`, `at`, `from`,
+//	                        `this`, `is`, …: leanKeywords) gets a trailing underscore — variables, parameters and named results
+//	                        in declare (which also keeps the Lean names of one function distinct), function names in function;
+//	                        structure field names are the preset's (Field.Lean)
 package go2lean
 
 import (
@@ -404,6 +447,11 @@ type Config struct {
 	// NoStructDefs: StructDefs checks the configured structures against the file's type declarations but emits
 	// nothing — the Lean structures are those of another generated module this one imports (the same Lean names).
 	NoStructDefs bool
+	// ReadOnlyRecv: a pointer-receiver method of a Threaded structure that never assigns to its receiver (no `r.f = e`,
+	// `r.f++`, `r.f[i] = e`, `copy(r.f, …)`, no call of a method on r, r not used as a value) is translated WITHOUT
+	// threading: `m (r : T) (args) : Option R`; a call reads the structure and rebinds nothing, so it may stand where a
+	// rebinding call may not (the right operand of && / ||).
+	ReadOnlyRecv bool
 }
 
 type Param struct {
@@ -433,6 +481,7 @@ type funcSig struct {
 	params  []*Type
 	results []*Type
 	recv    *Type // a threaded method: the receiver's structure (returned after the results, before the pointer parameters)
+	roRecv  *Type // a READ-ONLY pointer-receiver method of a threaded structure (Config.ReadOnlyRecv): the receiver is the first parameter and is not returned
 }
 
 // threads: the call rebinds something (a threaded receiver or a pointer parameter).
@@ -541,7 +590,24 @@ var leanKeywords = map[string]bool{"end": true, "at": true, "from": true, "fun":
 	"section": true, "variable": true, "universe": true, "example": true, "theorem": true, "def": true, "macro": true,
 	"syntax": true, "deriving": true, "import": true, "export": true, "partial": true, "unsafe": true, "nomatch": true,
 	"nofun": true, "Type": true, "Prop": true, "Sort": true, "some": true, "none": true, "pure": true, "fuel": true, "using": true,
-	"extends": true, "mutual": true, "attribute": true, "set_option": true, "omit": true, "include": true, "calc": true, "suffices": true, "obtain": true}
+	"extends": true, "mutual": true, "attribute": true, "set_option": true, "omit": true, "include": true, "calc": true, "suffices": true, "obtain": true,
+	"matches": true, "is": true, "this": true, "unless": true, "try": true, "catch": true, "finally": true, "exists": true, "forall": true,
+	"abbrev": true, "inductive": true, "opaque": true, "axiom": true, "noncomputable": true, "scoped": true, "termination_by": true,
+	"decreasing_by": true, "generalizing": true, "only": true, "break": true, "continue": true, "assert": true, "dbg_trace": true,
+	"elab": true, "initialize": true, "builtin_initialize": true, "declare_syntax_cat": true, "register_builtin_option": true,
+	"nonrec": true, "rec": true, "open_locale": true, "renaming": true, "hiding": true, "exposing": true, "sorry": true, "admit": true,
+	"native_decide": true, "implemented_by": true, "bv_decide": true}
+
+// leanIdent spells a Go identifier so that it is not a Lean keyword or reserved token: a trailing underscore
+// (`matches` ⇒ `matches_`, `end` ⇒ `end_`).  Variables go through declare (which also keeps the Lean names of one
+// function distinct: a Go variable that is really called `matches_` then becomes `matches__1`); function names through
+// function (a configured Rename is taken as it is).  Structure FIELD names are the preset's (Field.Lean).
+func leanIdent(name string) string {
+	if leanKeywords[name] {
+		return name + "_"
+	}
+	return name
+}
 
 func (t *tr) push() {
 	t.scopes = append(t.scopes, map[string]*varInfo{})
@@ -567,10 +633,7 @@ func (t *tr) declare(name string, ty *Type) *varInfo {
 	if v, ok := top[name]; ok { // redeclaration in the same scope (x, err := …): plain assignment
 		return v
 	}
-	lean := name
-	if leanKeywords[lean] {
-		lean += "_"
-	}
+	lean := leanIdent(name)
 	if n := t.used[lean]; n > 0 {
 		t.used[lean] = n + 1
 		lean = fmt.Sprintf("%s_%d", lean, n)
@@ -1322,6 +1385,33 @@ func (t *tr) call(c *ast.CallExpr) val {
 				if sig == nil {
 					t.fail(c, "method %s of %s is not among the translated functions (it must come before its callers)", sel.Sel.Name, vi.t.Name)
 				}
+				if sig.roRecv != nil {
+					// a read-only method: an ordinary call with the structure as first argument; nothing is rebound
+					if c.Ellipsis.IsValid() || len(c.Args) != len(sig.params) {
+						t.fail(c, "call of %s with %d arguments", sig.lean, len(c.Args))
+					}
+					pre, vs := args()
+					var parts []string
+					for _, ep := range t.cfg.ExtraParams {
+						if evi := t.lookup(ep.Lean); evi != nil {
+							parts = append(parts, evi.lean)
+						} else {
+							parts = append(parts, ep.Lean)
+						}
+					}
+					parts = append(parts, vi.lean)
+					for i, x := range vs {
+						parts = append(parts, paren(t.coerce(x, sig.params[i]).s))
+					}
+					var rt *Type
+					if len(sig.results) == 1 {
+						rt = sig.results[0]
+					} else {
+						rt = &Type{K: KTuple, Tup: sig.results}
+					}
+					tmp := t.tmp()
+					return val{pre: append(pre, fmt.Sprintf("let %s ← %s %s", tmp, sig.lean, strings.Join(parts, " "))), s: tmp, t: rt}
+				}
 				return t.threadedCall(c, vi, sig)
 			}
 		}
@@ -1400,6 +1490,12 @@ func (t *tr) call(c *ast.CallExpr) val {
 		return val{pre: pre, s: "GoLib.len " + paren(vs[0].s), t: TInt}
 	case "string", "[]byte":
 		pre, vs := args()
+		if name == "string" && len(vs) == 1 && vs[0].t != nil && (vs[0].t.K == KInt || vs[0].t.K == KByte) {
+			// string(c) of an integer CONSTANT below utf8.RuneSelf (`string(filepath.Separator)`): the one-byte string
+			if n, err := strconv.Atoi(vs[0].s); err == nil && n >= 0 && n < 128 && len(vs[0].pre) == 0 {
+				return val{pre: pre, s: "([" + strconv.Itoa(n) + "] : Bytes)", t: TStr}
+			}
+		}
 		if vs[0].t == nil || vs[0].t.K != KBytes {
 			t.fail(c, "conversion %s of a non-string", name)
 		}
@@ -2183,6 +2279,11 @@ func (t *tr) assigned(list []ast.Stmt) []*varInfo {
 			if id, ok := v.X.(*ast.Ident); ok {
 				names[id.Name] = true
 			}
+			if sel, ok := v.X.(*ast.SelectorExpr); ok { // r.f[i] = …
+				if id, ok := sel.X.(*ast.Ident); ok {
+					names[id.Name] = true
+				}
+			}
 		case *ast.StarExpr: // *p = … through a pointer parameter
 			if id, ok := v.X.(*ast.Ident); ok {
 				names[id.Name] = true
@@ -2353,10 +2454,53 @@ func (t *tr) block(list []ast.Stmt, k func() string) string {
 			if lines, ok := t.effectStmt(c); ok { // r.m(x) / b.Discard(n) as a statement: the results are dropped
 				return join(lines, rest())
 			}
+			if id, isId := c.Fun.(*ast.Ident); isId && t.lookup(id.Name) == nil && t.funcs[id.Name] == nil {
+				// f(x, &y) for a package-level function of the file without results and with an EMPTY body
+				// (filepathlite's `func postClean(out *lazybuf) {}` outside Windows): nothing happens; the arguments
+				// must be variables or their addresses (nothing to evaluate)
+				for _, d := range t.file.Decls {
+					fd, isFn := d.(*ast.FuncDecl)
+					if !isFn || fd.Recv != nil || fd.Name.Name != id.Name || fd.Body == nil || len(fd.Body.List) != 0 || fd.Type.Results != nil {
+						continue
+					}
+					plain := !c.Ellipsis.IsValid()
+					for _, a := range c.Args {
+						if u, isU := a.(*ast.UnaryExpr); isU && u.Op == token.AND {
+							a = u.X
+						}
+						if aid, isA := a.(*ast.Ident); !isA || t.lookup(aid.Name) == nil {
+							plain = false
+						}
+					}
+					if plain {
+						return rest()
+					}
+				}
+			}
 			switch calleeName(c.Fun) {
 			case "panic":
 				return "none"
 			case "copy":
+				if sel, isSel := c.Args[0].(*ast.SelectorExpr); isSel {
+					// copy(r.f, src) into a slice field of a structure variable; for a field whose nil-ness is tracked a nil
+					// destination has length 0 — nothing is copied and it stays nil (Option.map)
+					if id, isId := sel.X.(*ast.Ident); isId && t.lookup(id.Name) != nil && t.lookup(id.Name).t.K == KStruct {
+						vi := t.lookup(id.Name)
+						if ft := t.fieldType(t.structOf(vi.t), sel.Sel.Name); ft != nil && (ft.K == KBytes || ft.K == KNil && ft.Elem.K == KBytes) {
+							src := t.expr(c.Args[1])
+							if src.t == nil || src.t.K != KBytes {
+								t.fail(v, "copy from something other than a byte slice or string")
+							}
+							var line string
+							if ft.K == KNil {
+								line = fmt.Sprintf("let %s : %s := { %s with %s := Option.map (fun d_ => GoLib.copyInto d_ %s) %s.%s }", vi.lean, vi.t.Lean(), vi.lean, sel.Sel.Name, paren(src.s), vi.lean, sel.Sel.Name)
+							} else {
+								line = fmt.Sprintf("let %s : %s := { %s with %s := GoLib.copyInto %s.%s %s }", vi.lean, vi.t.Lean(), vi.lean, sel.Sel.Name, vi.lean, sel.Sel.Name, paren(src.s))
+							}
+							return join(append(src.pre, line), rest())
+						}
+					}
+				}
 				dst, ok := c.Args[0].(*ast.Ident)
 				if !ok || t.lookup(dst.Name) == nil {
 					t.fail(v, "copy into something other than a local variable")
@@ -2620,6 +2764,24 @@ func (t *tr) assignTo(lhs ast.Expr, x val, define bool) []string {
 				t.fail(lhs, "unsupported map assignment")
 			}
 			return append(i.pre, fmt.Sprintf("let %s : %s := GoLib.mapSet %s %s %s", vi.lean, vi.t.Lean(), vi.lean, paren(i.s), paren(x.s)))
+		}
+		if sel, isSel := l.X.(*ast.SelectorExpr); isSel {
+			// r.f[i] = x for a byte-slice field of a structure variable (a field whose nil-ness is tracked: a nil slice
+			// has length 0, so the store panics; otherwise the field stays non-nil)
+			if id, isId := sel.X.(*ast.Ident); isId && t.lookup(id.Name) != nil && t.lookup(id.Name).t.K == KStruct {
+				vi := t.lookup(id.Name)
+				if ft := t.fieldType(t.structOf(vi.t), sel.Sel.Name); ft != nil && (ft.K == KBytes || ft.K == KNil && ft.Elem.K == KBytes) {
+					i := t.expr(l.Index)
+					x = t.coerce(x, TByte)
+					tmp := t.tmp()
+					cur, wrap := vi.lean+"."+sel.Sel.Name, tmp
+					if ft.K == KNil {
+						cur, wrap = "(GoLib.nilData "+cur+")", "some "+tmp
+					}
+					return append(i.pre, fmt.Sprintf("let %s ← GoLib.setIdx? %s %s %s", tmp, cur, paren(i.s), paren(x.s)),
+						fmt.Sprintf("let %s : %s := { %s with %s := %s }", vi.lean, vi.t.Lean(), vi.lean, sel.Sel.Name, wrap))
+				}
+			}
 		}
 		id, ok := l.X.(*ast.Ident)
 		if ok && t.lookup(id.Name) != nil {
@@ -3425,9 +3587,76 @@ func checkSentinels(file *ast.File, cfg *Config) error {
 	return nil
 }
 
+// recvReadOnly: the pointer-receiver method fd never changes *r — no assignment, ++/-- or range assignment whose
+// target is rooted at r, no method call on r, r only used as `r.f`, and (so that no alias of a field can be written
+// through) no store through an index, no copy and no function literal anywhere in the body.
+func recvReadOnly(fd *ast.FuncDecl) bool {
+	name := fd.Recv.List[0].Names[0].Name
+	root := func(e ast.Expr) string {
+		for {
+			switch v := e.(type) {
+			case *ast.SelectorExpr:
+				e = v.X
+			case *ast.IndexExpr:
+				e = v.X
+			case *ast.SliceExpr:
+				e = v.X
+			case *ast.ParenExpr:
+				e = v.X
+			case *ast.StarExpr:
+				e = v.X
+			case *ast.Ident:
+				return v.Name
+			default:
+				return ""
+			}
+		}
+	}
+	ok, fields, total := true, 0, 0
+	ast.Inspect(fd.Body, func(x ast.Node) bool {
+		switch v := x.(type) {
+		case *ast.AssignStmt:
+			for _, l := range v.Lhs {
+				if _, isIdx := l.(*ast.IndexExpr); isIdx || root(l) == name {
+					ok = false
+				}
+			}
+		case *ast.IncDecStmt:
+			if _, isIdx := v.X.(*ast.IndexExpr); isIdx || root(v.X) == name {
+				ok = false
+			}
+		case *ast.RangeStmt:
+			if v.Key != nil && root(v.Key) == name || v.Value != nil && root(v.Value) == name {
+				ok = false
+			}
+		case *ast.CallExpr:
+			if sel, isSel := v.Fun.(*ast.SelectorExpr); isSel {
+				if id, isId := sel.X.(*ast.Ident); isId && id.Name == name {
+					ok = false
+				}
+			}
+			if id, isId := v.Fun.(*ast.Ident); isId && id.Name == "copy" {
+				ok = false
+			}
+		case *ast.SelectorExpr:
+			if id, isId := v.X.(*ast.Ident); isId && id.Name == name {
+				fields++
+			}
+		case *ast.Ident:
+			if v.Name == name {
+				total++
+			}
+		case *ast.FuncLit, *ast.GoStmt, *ast.DeferStmt:
+			ok = false
+		}
+		return true
+	})
+	return ok && fields == total
+}
+
 func (t *tr) function(fd *ast.FuncDecl) string {
 	t.fn = fd
-	t.fnLean = t.cfg.Prefix + fd.Name.Name
+	t.fnLean = t.cfg.Prefix + leanIdent(fd.Name.Name)
 	if r, ok := t.cfg.Rename[fd.Name.Name]; ok {
 		t.fnLean = r
 	}
@@ -3465,8 +3694,12 @@ func (t *tr) function(fd *ast.FuncDecl) string {
 				ty := t.typeExpr(id)
 				vi := t.declare(fd.Recv.List[0].Names[0].Name, ty)
 				ps = append(ps, fmt.Sprintf("(%s : %s)", vi.lean, ty.Lean()))
-				sig.recv = ty
-				t.thread = append(t.thread, vi)
+				if t.cfg.ReadOnlyRecv && recvReadOnly(fd) {
+					sig.roRecv = ty // the method only reads *r: nothing to return
+				} else {
+					sig.recv = ty
+					t.thread = append(t.thread, vi)
+				}
 			}
 		}
 	}
@@ -3520,6 +3753,8 @@ func (t *tr) function(fd *ast.FuncDecl) string {
 	}
 	if sig.recv != nil {
 		t.methods[sig.recv.Name+"."+fd.Name.Name] = sig
+	} else if sig.roRecv != nil {
+		t.methods[sig.roRecv.Name+"."+fd.Name.Name] = sig
 	} else {
 		t.funcs[fd.Name.Name] = sig
 	}
@@ -3560,7 +3795,7 @@ func (t *tr) function(fd *ast.FuncDecl) string {
 		return "none"
 	})
 	t.deferred = nil
-	if fd.Recv != nil && sig.recv == nil {
+	if fd.Recv != nil && sig.recv == nil && sig.roRecv == nil {
 		t.funcs[fd.Recv.List[0].Names[0].Name+"."+fd.Name.Name] = sig
 	}
 	doc := fmt.Sprintf("/-- translated from `func %s` (%s) -/\n", fd.Name.Name, t.fset.Position(fd.Pos()).Filename)
@@ -3668,6 +3903,11 @@ func StructDefs(fset *token.FileSet, file *ast.File, cfg *Config) (text string, 
 		}
 		fmt.Fprintf(&sb, "structure %s where\n", s.Lean)
 		for i, f := range s.Fields {
+			if f.T.K == KNil && got[i].Go == f.Go && got[i].T.Lean() == f.T.Elem.Lean() {
+				// a slice field whose nil-ness the methods observe (`b.buf == nil`): Option of the slice
+				fmt.Fprintf(&sb, "  %s : %s\n", f.Lean, strings.TrimSuffix(strings.TrimPrefix(f.T.Lean(), "("), ")"))
+				continue
+			}
 			if got[i].Go != f.Go || got[i].T.Lean() != f.T.Lean() {
 				return "", fmt.Errorf("type %s field %d is %s %s, the configuration says %s %s", n, i, got[i].Go, got[i].T.Lean(), f.Go, f.T.Lean())
 			}
